@@ -140,6 +140,54 @@ def instnames_program():
     return Contract(methods=tuple(ms), entry_points="")
 
 
+_BINDERS = None
+BIND_TYPES = ["u32", "String", "bool", "u64", "i32", "Option<u32>", "Vec<String>", "Inner", "Uint128"]
+
+
+def binder_names():
+    """Every lower-case identifier the code generated for a reference program binds as a value (function and closure
+    parameters, let / match / struct patterns), read from the real expansion (E1, multitest helpers included).
+    Identifiers in the generator's own reserved namespaces (`sv_*`, `__*`) are left out."""
+    global _BINDERS
+    if _BINDERS is None:
+        recs = []
+        for pid, c in (("ptypes0", types_program(TYPES)), ("preply0", reply_program()), ("perr0", error_program())):
+            recs.append(model.e1_contract_record("bind:%s:ct" % pid, c, want="binders,mt"))
+            recs.append(model.e1_entry_points_record("bind:%s:ep" % pid, c, want="binders,mt"))
+            for i in c.interfaces:
+                recs.append(model.e1_interface_record("bind:%s:%s" % (pid, i.module), i, want="binders,mt"))
+        names = set()
+        for o in core.e1_run(recs, "binders"):
+            if "binders" not in o:
+                raise core.MachineryError("no binder list in the E1 observation of %s" % o.get("id"))
+            names.update(n for f, n in o["binders"])
+        _BINDERS = sorted(n for n in names if not n.startswith("sv_") and not n.startswith("__") and n != "_")
+        if len(_BINDERS) < 20:
+            raise core.MachineryError("implausibly few binders in the generated code: %s" % _BINDERS)
+    return _BINDERS
+
+
+def binder_programs():
+    """Handlers of every kind, in a contract and in an interface, whose arguments are named like each identifier the
+    generated code binds: none may be captured or shadowed (the program compiles and every argument reaches its parameter)."""
+    names = binder_names()
+    W = 6
+    chunks = [names[k:k + W] for k in range(0, len(names), W)]
+    args = lambda ch, rot: tuple(Arg(n, BIND_TYPES[(j + rot) % len(BIND_TYPES)]) for j, n in enumerate(ch))
+    cm, im = [Method("instantiate", "inst", ())], []
+    for j, ch in enumerate(chunks):
+        for k, p in (("exec", "be"), ("query", "bq"), ("sudo", "bs")):
+            cm.append(Method(k, "%s%d" % (p, j), args(ch, j)))
+            im.append(Method(k, "i%s%d" % (p, j), args(ch, j + 3)))
+    out = [("pbind0", Contract(methods=tuple(cm), interfaces=(iface(0, im),), entry_points=""), {"types", "argnames", "binders"})]
+    W2 = 9
+    for j, k in enumerate(range(0, len(names), W2)):
+        ch = names[k:k + W2]
+        ms = [Method("instantiate", "inst", args(ch, j)), Method("migrate", "mig", args(list(reversed(ch)), j + 1)), Method("exec", "ex", ())]
+        out.append(("pbind%d" % (j + 1), Contract(methods=tuple(ms), entry_points=""), {"types", "argnames", "binders"}))
+    return out
+
+
 def prefix_program():
     """Message names of one part that are proper prefixes of names of another part of the same kind,
     the longer-named part listed first (routing must compare whole names)."""
@@ -191,6 +239,7 @@ def programs(tier):
     out.append(("precase0", recase_program(), {"samename", "recase"}))
     out.append(("pctxmix0", ctxmix_program(), {"samename", "kinds", "ctxmix"}))
     out.append(("pinstnames0", instnames_program(), {"types", "argnames"}))
+    out.extend(binder_programs())
     for n in (0, 1, 2):
         out.append(("pparts%d" % n, parts_program(n), {"parts"}))
     KS = ["exec", "query", "sudo"]
@@ -229,6 +278,13 @@ def value_tuples(m, limit=None):
     doms = []
     for a in m.args:
         doms.append(model.TYPE_VALUES[a.ty])
+    size = 1
+    for d in doms:
+        size *= len(d)
+    if size > 64:
+        # many arguments: diagonal tuples (argument i takes its (v + i)-th value), every value of every argument occurs
+        tuples = [tuple(d[(v + i) % len(d)] for i, d in enumerate(doms)) for v in range(max(len(d) for d in doms))]
+        return tuples[:limit] if limit else tuples
     tuples = []
     for tup in itertools.product(*doms):
         ok = True
